@@ -148,6 +148,7 @@ type Scenario struct {
 	Preset        bool
 	Init          func(w *World) // after client construction, before the first step
 	MaxConns      int
+	FSStore       bool                 // the Persistence is mqtt.FileSystem over the in-memory file system; every primitive is a gate
 	AdoptProp     string               // property an AdoptSession failure is attributed to (default C02)
 	LazyExchanges bool                 // the application does not read its exchange channels before the end
 	Burst         bool                 // the broker sends the whole inbound script right after CONNACK
@@ -237,6 +238,66 @@ func (w *World) logStore(op string, key uint, val []byte, err error) {
 
 func (w *World) Violate(prop, sig, format string, a ...any) {
 	w.viol = append(w.viol, Violation{Prop: prop, Sig: sig, Detail: fmt.Sprintf(format, a...)})
+}
+
+// records returns the Persistence content by key (map store or file system).
+func (w *World) records() map[uint][]byte {
+	if !w.scn.FSStore {
+		return w.store.m
+	}
+	m := map[uint][]byte{}
+	for name, ino := range w.vfs.names {
+		var k uint
+		if len(name) == len("/d/")+5 && strings.HasPrefix(name, "/d/") {
+			if _, err := fmt.Sscanf(name[3:], "%05x", &k); err == nil {
+				m[k] = ino.data
+			}
+		}
+	}
+	return m
+}
+
+// persistence returns the Persistence handed to the client constructors.
+func (w *World) persistence() mqtt.Persistence {
+	if !w.scn.FSStore {
+		return w.store
+	}
+	return mqtt.FileSystem("/d/")
+}
+
+// mountFS installs v as the file system of the FileSystem store.
+func (w *World) mountFS(v *vfs) {
+	w.vfs = v
+	v.gate = func(op string) {
+		if w.sch.isRoot() {
+			return
+		}
+		t := w.sch.cur()
+		if w.sch.passThrough(t) {
+			return
+		}
+		w.sch.Gate("fs:" + op)
+	}
+	v.dead = func() bool {
+		if w.sch.isRoot() {
+			return false
+		}
+		t := w.sch.cur()
+		w.sch.mu.Lock()
+		defer w.sch.mu.Unlock()
+		return t.gen < w.sch.gen // a stopped process cannot touch the disk anymore
+	}
+	v.onCommit = func(op string, name string, val []byte) {
+		var k uint
+		if len(name) != len("/d/")+5 || !strings.HasPrefix(name, "/d/") {
+			return
+		}
+		if _, err := fmt.Sscanf(name[3:], "%05x", &k); err != nil {
+			return
+		}
+		w.logStore(op, k, val, nil)
+	}
+	mqtt.VerifSetOS(v.table())
 }
 
 func (w *World) liveConn() *simConn {
@@ -786,6 +847,18 @@ func (w *World) stateKey() uint64 {
 			h = mix(h, "q")
 		}
 	}
+	if w.vfs != nil {
+		// uncommitted spool files are state too (the log only has the commits)
+		names := make([]string, 0, len(w.vfs.names))
+		for n := range w.vfs.names {
+			names = append(names, n)
+		}
+		sort.Strings(names)
+		for _, n := range names {
+			h = mix(h, n)
+			h = mix(h, string(w.vfs.names[n].data))
+		}
+	}
 	if w.scn.Key != nil {
 		h = mix(h, w.scn.Key(w))
 	}
@@ -798,7 +871,7 @@ func (w *World) newClient(adopt bool) error {
 	var err error
 	if adopt {
 		var warns []error
-		w.client, warns, err = mqtt.AdoptSession(w.store, &cfg)
+		w.client, warns, err = mqtt.AdoptSession(w.persistence(), &cfg)
 		w.warns = warns
 		for _, wn := range warns {
 			w.ev(Event{K: "adopt-warn", S: wn.Error()})
@@ -815,7 +888,7 @@ func (w *World) newClient(adopt bool) error {
 	if w.scn.Volatile {
 		w.client, err = mqtt.VolatileSession(id, &cfg)
 	} else {
-		w.client, err = mqtt.InitSession(id, w.store, &cfg)
+		w.client, err = mqtt.InitSession(id, w.persistence(), &cfg)
 	}
 	if err == nil && w.scn.Preset {
 		mqtt.VerifPresetSeq(w.client, w.scn.PresetSeq[0], w.scn.PresetSeq[1])
@@ -835,8 +908,14 @@ type damage struct {
 // damages lists the single-record damages applicable to the current store.
 func (w *World) damages() []damage {
 	var out []damage
-	for _, k := range w.store.keys() {
-		v := w.store.m[k]
+	recs := w.records()
+	keys := make([]uint, 0, len(recs))
+	for k := range recs {
+		keys = append(keys, k)
+	}
+	sort.Slice(keys, func(i, j int) bool { return keys[i] < keys[j] })
+	for _, k := range keys {
+		v := recs[k]
 		add := func(kind string, f func(m map[uint][]byte)) {
 			out = append(out, damage{label: fmt.Sprintf("%s(%#x)", kind, k), key: k, kind: kind, apply: f})
 		}
@@ -866,12 +945,32 @@ func (w *World) damages() []damage {
 func (w *World) crash(dmg []damage) {
 	w.ev(Event{K: "crash"})
 	snap := w.store.copy(w)
+	var fsSnap *vfs
+	if w.scn.FSStore {
+		fsSnap = w.vfs.clone()
+		snap.m = map[uint][]byte{}
+		for k, v := range w.records() {
+			snap.m[k] = clone(v)
+		}
+	}
 	for _, d := range dmg {
 		d.apply(snap.m)
+		if fsSnap != nil {
+			name := fmt.Sprintf("/d/%05x", d.key)
+			if v, ok := snap.m[d.key]; ok {
+				fsSnap.names[name] = &inode{data: clone(v)}
+			} else {
+				delete(fsSnap.names, name)
+			}
+		}
 		w.ev(Event{K: "damage", N: int(d.key), S: d.kind})
 		w.damaged = append(w.damaged, d)
 	}
-	w.crashSnaps = append(w.crashSnaps, crashSnap{step: w.step, gen: w.gen, logIdx: len(w.log), store: w.store.copy(w).m})
+	snapCopy := map[uint][]byte{}
+	for k, v := range snap.m {
+		snapCopy[k] = clone(v)
+	}
+	w.crashSnaps = append(w.crashSnaps, crashSnap{step: w.step, gen: w.gen, logIdx: len(w.log), store: snapCopy})
 	old := w.client
 	// drain the old generation: its goroutines run free against dead
 	// connections and a detached store
@@ -901,6 +1000,9 @@ func (w *World) crash(dmg []damage) {
 	w.sch.mu.Unlock()
 	w.gen++
 	w.store = snap
+	if fsSnap != nil {
+		w.mountFS(fsSnap)
+	}
 	// the old generation's exchanges are gone with their process; what its
 	// goroutines still do to them while draining is not an observation
 	for _, x := range w.xchs {
@@ -989,6 +1091,9 @@ func runExec(t *testing.T, scn *Scenario, prefix []int, pr pruner, trace bool) (
 				return sc.String()
 			}
 			return "?"
+		}
+		if scn.FSStore {
+			w.mountFS(newVFS())
 		}
 		if err := w.newClient(false); err != nil {
 			x.ToolErr = "client construction: " + err.Error()
